@@ -129,26 +129,30 @@ def _tod_case(rel, repeat, first_day_mode):
                         z3.And(started, PS < tau, tau <= CS, tau % DAY == TH), resz)))
                     posts.append(("fires_only_at_instant", z3.Implies(resz, z3.And(
                         started, (CS - B) % DAY == TH, PS < CS - B, CS - B <= CS))))
-                elif rel is Comparison.gt:
+                elif rel in (Comparison.gt, Comparison.ge):
                     posts.append(("after_true_exactly_from_threshold_to_midnight", resz == z3.And(started, CS % DAY >= TH)))
                 elif rel is Comparison.lt:
                     posts.append(("before_true_exactly_from_midnight_to_threshold", resz == z3.And(started, CS % DAY < TH)))
+                elif rel is Comparison.le:
+                    posts.append(("at_or_before_true_exactly_from_midnight_through_threshold", resz == z3.And(started, CS % DAY <= TH)))
             else:
                 P2, C2 = PS - FD * DAY, CS - FD * DAY
                 if rel is Comparison.eq:
                     posts.append(("fires_iff_instant_in_step", resz == z3.And(started, P2 < TH, TH <= C2)))
                     posts.append(("backtrack_to_instant", z3.Implies(resz, B == C2 - TH)))
-                elif rel is Comparison.gt:
+                elif rel in (Comparison.gt, Comparison.ge):
                     posts.append(("after_true_from_threshold_on", resz == z3.And(started, C2 >= TH)))
                 elif rel is Comparison.lt:
                     posts.append(("before_true_until_threshold", resz == z3.And(started, C2 < TH)))
+                elif rel is Comparison.le:
+                    posts.append(("at_or_before_true_through_threshold", resz == z3.And(started, C2 <= TH)))
             posts.append(("backtrack_within_step", z3.And(B >= 0, z3.Implies(resz, B < CS - PS))))
             return posts
         cx.ensure(post)
     return Case("rel=%s,repeat=%s,first_day=%s" % (rel.name, repeat, first_day_mode), build)
 
 
-_tod_cases = [_tod_case(rel, rep, fdm) for rel in (Comparison.eq, Comparison.gt, Comparison.lt)
+_tod_cases = [_tod_case(rel, rep, fdm) for rel in (Comparison.eq, Comparison.gt, Comparison.lt, Comparison.ge, Comparison.le)
               for rep in (True, False) for fdm in ("zero", "sym")]
 
 CONTRACTS = [
